@@ -18,6 +18,8 @@ Validity (what ISO 10303-11 demands AND what this front end accepts; calibrated 
   * domain rules of TYPEs and ENTITYs mention SELF or an attribute
   * front-end limitations avoided (not ISO restrictions): enumeration items of a REFERENCEd type are not visible;
     the variable of an ALIAS statement has no type (no indexing / attribute access on it); integers fit in 31 bits;
+    the domain rules of a TYPE imported by another schema are resolved in the importing schema (so imported types
+    have no WHERE clause here); a null statement cannot be a case action; the lower index of [i:j] is never resolved;
     tail remarks after ';' are shorter than 100 characters; nesting depth of scopes < 20
 All structural choices are Hypothesis draws; the layout (white space, remarks, letter case) is derived from one drawn
 integer per file through random.Random (see explang_render.layout).
@@ -38,8 +40,11 @@ AVOIDABLE = [
     "case-multi-label",      # case action with more than one label
     "proc-no-params",        # procedure declared without formal parameters
     "pcall-no-args",         # procedure call without an actual parameter list
+    "func-no-params",        # function declared without formal parameters (its calls have no parameter list)
     "alias",                 # ALIAS statement
     "agg-rep-01",            # aggregate initialiser repetition whose count is the literal 0 or 1
+    "agg-rep-expr",          # aggregate initialiser repetition whose count is not a literal
+    "case-label-op",         # case label that is an operator expression (e.g. -1, a + 1)
     "same-op-right",         # a op (b op c) with explicit parentheses, op in + * AND OR XOR || =
     "super-mixed",           # supertype expression mixing AND and ANDOR without parentheses
     "rename-type",           # USE FROM s (x AS y) where y is then used as a type
@@ -128,6 +133,8 @@ class SchemaCtx:
         self.procedures = []
         self.constants = []    # (name, T)
         self.aliases = {}      # local alias -> (kind, original)
+        self.where_types = set()   # types with domain rules
+        self.imported = set()      # local names that came in through USE / REFERENCE
 
 
 class Env:
@@ -381,15 +388,30 @@ class G:
             return ("paren", e)
         return e
 
+    SAME_OP_SENSITIVE = ("+", "*", "AND", "OR", "XOR", "||", "=")
+
+    @staticmethod
+    def strip(e):
+        while e[0] == "paren":
+            e = e[1]
+        return e
+
     def binop(self, op, l, r):
+        """l op r.  `a op (b op c)` with op in SAME_OP_SENSITIVE is the shape "same-op-right"; when that shape is to be
+        avoided the expression is re-associated at generation time (same operator, same operand class: still typed)."""
+        if op in self.SAME_OP_SENSITIVE:
+            rs, ls = self.strip(r), self.strip(l)
+            if op == "=" and ((rs[0] == "op" and rs[1] == "=") or (ls[0] == "op" and ls[1] == "=")):
+                if self.ok("same-op-right"):
+                    self.tag("same-op-right")
+                else:
+                    op = "<>"
+            elif rs[0] == "op" and rs[1] == op:
+                if self.ok("same-op-right"):
+                    self.tag("same-op-right")
+                else:
+                    return self.binop(op, self.binop(op, l, rs[2]), rs[3])
         self.tag("op:" + op)
-        # never chain '**' / relational: the renderer parenthesises by row, which makes such operands explicit
-        if not self.ok("same-op-right") and r[0] == "op" and r[1] == op:
-            r, l = l, r
-            if r[0] == "op" and r[1] == op:
-                r = ("call", "ABS", [r]) if op in "+*" else l
-        elif r[0] == "op" and r[1] == op and op in ("+", "*", "AND", "OR", "XOR", "||", "="):
-            self.tag("same-op-right")
         return ("op", op, l, r)
 
     def gen_num(self, env, d, want="num"):
@@ -489,7 +511,10 @@ class G:
             if cls == "str":
                 return self.binop(op, self.gen_str(env, d + 1), self.gen_str(env, d + 1))
             if cls == "bin":
-                return self.binop(op, self.gen_bin(env, d + 1), self.gen_bin(env, d + 1))
+                b1 = self.gen_bin(env, d + 1)
+                if b1 is not None:
+                    return self.binop(op, b1, self.gen_bin(env, d + 1))
+                cls = "num"
             if cls == "enum":
                 r = self.ref_of(env, lambda c: isinstance(c, tuple) and c[0] == "enum", d)
                 if r:
@@ -635,9 +660,12 @@ class G:
         return self.gen_str_lit(short=(d > 2 and self.p(50)))
 
     def gen_bin(self, env, d):
+        """binary valued expression, or None when there is neither a BINARY variable nor permission for literals"""
+        r = self.ref_of(env, lambda c: c == "bin", d)
+        if r is None and not self.ok("lit-bin"):
+            return None
         if d < 3 and self.p(25):
             return self.binop("+", self.gen_bin(env, d + 1), self.gen_bin(env, d + 1))
-        r = self.ref_of(env, lambda c: c == "bin", d)
         if r and self.p(60):
             if self.ok("index-binary") and self.p(20) and r[0][0] in ("id", "dot"):
                 self.tag("index-range")
@@ -645,9 +673,7 @@ class G:
             return r[0]
         if self.ok("lit-bin"):
             return self.gen_bin_lit()
-        if r:
-            return r[0]
-        return None
+        return r[0]
 
     def gen_enum(self, env, tname, d):
         items = env.sc.types[tname][1]
@@ -714,6 +740,11 @@ class G:
             rep = None
             if self.p(25):
                 rep = self.gen_num(env, d + 2, "int")
+                if rep[0] != "int":
+                    if not self.ok("agg-rep-expr"):
+                        rep = ("int", str(self.i(2, 9)))
+                    else:
+                        self.tag("agg-init-rep-expr")
                 if rep[0] == "int" and int(rep[1]) in (0, 1):
                     if not self.ok("agg-rep-01"):
                         rep = ("int", str(self.i(2, 9)))
@@ -946,7 +977,14 @@ class G:
             mk = lambda: self.gen_str_lit(short=True)
         if sel is None:
             sel = self.gen_num(env, d + 1, "int")
-            mk = lambda: self.gen_num(env, d + 3, "int")
+
+            def mk():
+                e = self.gen_num(env, d + 3, "int")
+                if e[0] in ("op", "un", "paren"):
+                    if not self.ok("case-label-op"):
+                        return self.gen_int_lit()
+                    self.tag("stmt:case-label-op")
+                return e
         actions = []
         for _ in range(self.i(0, 3)):
             nl = 1
@@ -1030,7 +1068,8 @@ class G:
         self.tag("stmt:alias")
         v = self.names.fresh("al")
         e2 = env.child()
-        e2.vars.append((v, t, True))
+        # the alias variable is untyped for this front end: visible, assignable here, never used in a typed position
+        e2.vars.append((v, ("generic", None), False))
         e2.noindex.add(v)
         body = [("assign", ("id", v), self.gen_for(e2, t, d + 2))]
         if self.p(40):
@@ -1068,6 +1107,11 @@ class G:
         np = self.i(0, 3)
         if kind == "procedure" and np == 0 and not self.ok("proc-no-params"):
             np = 1
+        if kind == "function" and np == 0:
+            if not self.ok("func-no-params"):
+                np = 1
+            else:
+                self.tag("func-no-params")
         for _ in range(np):
             var = kind == "procedure" and self.p(40)
             t = self.gen_param_type(sc, allow_generic=not var)
@@ -1179,9 +1223,11 @@ class G:
                 continue
             kind = self.pick(["USE", "REFERENCE"])
             items = []
-            pool = [("entity", n) for n in o.entity_order] + [("type", n) for n in o.type_order if n in o.types and o.types[n][0] != "enum"]
+            pool = [("entity", n) for n in o.entity_order if not o.entities[n].get("imported")] + \
+                   [("type", n) for n in o.type_order if o.types[n][0] != "enum" and n not in o.where_types and n not in o.imported]
             if kind == "REFERENCE":
-                pool += [("function", f[0]) for f in o.functions] + [("constant", c[0]) for c in o.constants] + \
+                pool += [("function", f[0]) for f in o.functions if f[0] not in o.imported] + \
+                        [("constant", c[0]) for c in o.constants if c[0] not in o.imported] + \
                         [("procedure", p[0]) for p in o.procedures]
             if not pool:
                 continue
@@ -1196,6 +1242,7 @@ class G:
                     self.tag("rename-as")
                 items.append((n, alias))
                 local = alias or n
+                sc.imported.add(local)
                 # make the imported thing visible under its local name
                 if what == "entity":
                     # an imported entity is usable as a type; its attributes come with it
@@ -1241,15 +1288,16 @@ class G:
             sc.type_order.append(tn)
             self.tag("type-enum")
         own_entities = []
-        for _ in range(self.i(0 if sz == 0 else 1, 3 + 2 * sz)):
+        for _ in range(self.i(0 if sz == 0 else 1, 4 + 2 * sz)):
             en = self.names.fresh("ent")
             sc.entities[en] = {"supers": [], "subs": [], "attrs": [], "explicit": []}
             sc.entity_order.append(en)
             own_entities.append(en)
         # inheritance: later entities may be subtypes of earlier ones
         for i, en in enumerate(own_entities):
-            if i and self.p(55):
-                sup = [self.pick(own_entities[:i])]
+            if i and self.p(70):
+                # prefer the first entity as the supertype so that some entities get three and more direct subtypes
+                sup = [own_entities[0] if self.p(45) else self.pick(own_entities[:i])]
                 if i > 1 and self.p(20):
                     s2 = self.pick(own_entities[:i])
                     if s2 not in sup and s2 not in self.supers_closure(sc, sup[0]) and sup[0] not in self.supers_closure(sc, s2):
@@ -1333,7 +1381,7 @@ class G:
                 if self.p(30):
                     d["abstract"] = True
                     self.tag("abstract")
-                if self.p(60):
+                if self.p(75):
                     d["supertype_of"] = self.gen_supertype(list(e["subs"]))
             for _ in range(self.i(0, 2)):
                 t = self.gen_type(sc, 1)
@@ -1400,6 +1448,7 @@ class G:
             if self.p(30) and not self.is_imported(s, tn):
                 self.tag("type-where")
                 type_where[tn] = self.gen_type_where(sc, tn)
+                sc.where_types.add(tn)
         # ---- algorithms and rules
         decls = []
         for tn in sc.type_order:
@@ -1518,30 +1567,36 @@ class G:
             return ("ent", pool.pop(self.i(0, len(pool) - 1)))
 
         def term(depth):
-            if len(pool) >= 2 and self.p(45):
+            if len(pool) >= 2 and self.p(35):
                 self.tag("supertype-oneof")
                 items = [expr(depth + 1) if depth < 1 and self.p(25) and len(pool) > 2 else take()]
-                while pool and (len(items) < 2 or self.p(40)):
+                while pool and (len(items) < 2 or self.p(25)):
                     items.append(take())
                 return ("oneof", items)
             return take()
 
         def expr(depth):
             left = term(depth)
-            while pool and self.p(60 if depth == 0 else 35):
+            while pool and self.p(85 if depth == 0 else 35):
                 op = self.pick(["and", "andor"])
                 self.tag("supertype-" + op)
                 right = term(depth)
-                if not self.ok("super-mixed"):
-                    # parenthesise whenever the two operators differ
-                    if left[0] in ("and", "andor") and left[0] != op:
-                        left = ("paren", left)
-                elif left[0] in ("and", "andor") and left[0] != op:
-                    self.tag("supertype-mixed")
-                if self.p(15) and right[0] == "ent" and pool:
-                    op2 = self.pick(["and", "andor"])
+                if pool and self.p(55):
+                    # right operand is itself a binary expression
+                    op2 = "and" if op == "andor" and self.p(60) else self.pick(["and", "andor"])
                     self.tag("supertype-" + op2)
-                    right = ("paren", (op2, right, take()))
+                    right = (op2, right, term(depth))
+                    if op == "andor" and op2 == "and" and self.ok("super-mixed") and self.p(70):
+                        # a ANDOR b AND c: AND binds tighter (9.2.5.4), no parentheses needed
+                        self.tag("supertype-mixed")
+                    else:
+                        right = ("paren", right)
+                if left[0] in ("and", "andor") and left[0] != op:
+                    if op == "andor" and left[0] == "and" and self.ok("super-mixed") and self.p(70):
+                        # a AND b ANDOR c
+                        self.tag("supertype-mixed")
+                    else:
+                        left = ("paren", left)
                 left = (op, left, right)
             return left
         return expr(0)
